@@ -37,7 +37,10 @@ def run(tier, mode):
         texts.append(t)
         extra = r.choice(['', '', 'segment', 'sec_within', 'parse_qq', 'segment,sec_within'])
         # ---- forced, three channels
+        other = r.choice(['TRS_desc', 'desc_STR', 'S_desc_TR', 'TR_desc_S'])
         for ch, f in (('init_keyword', lambda: pytrs.PLSSDesc(t, layout='copy_all', config=extra or None)),
+                      ('init_keyword_over_config', lambda: pytrs.PLSSDesc(t, layout='copy_all', config=','.join(x for x in [extra, other] if x))),
+                      ('parse_argument_over_config', lambda: pytrs.PLSSDesc(t, config=','.join(x for x in [extra, other, 'wait_to_parse'] if x)).parse(layout='copy_all', commit=False)),
                       ('config', lambda: pytrs.PLSSDesc(t, config=','.join(x for x in [extra, 'copy_all'] if x))),
                       ('parse_argument', lambda: pytrs.PLSSDesc(t, config=extra or None, wait_to_parse=True).parse(layout='copy_all', commit=False))):
             o = H.call(f)
@@ -47,7 +50,7 @@ def run(tier, mode):
                 fail('forced_raises', {'text': t, 'channel': ch, 'config': extra}, o, 'one tract')
                 continue
             tl = o.tracts if hasattr(o, 'tracts') else o
-            pp = plss_preprocess(t)[0] if not hasattr(o, 'pp_desc') or ch == 'parse_argument' else o.pp_desc
+            pp = plss_preprocess(t)[0] if not hasattr(o, 'pp_desc') or ch.startswith('parse_argument') else o.pp_desc
             if 'ocr_scrub' in extra:
                 pass
             if len(tl) != 1 or tl[0].desc != pp:
